@@ -17,9 +17,24 @@
 (* the sign / zero-ness of the other factor, which r shares with l.        *)
 (*                                                                         *)
 (*   Off(j,k)  s = (a_jk - sum_{i<k} l_ki l_ji) / l_kk ;  acc += s*s       *)
-(*   Diag(j)   dj = a_jj - acc ;  reject if dj < 0 (IEEE: FALSE for nan);  *)
-(*             with NanIsError also reject when dj is nan (the repaired    *)
-(*             design: `!(d > 0)` / `d.is_nan()`)                          *)
+(*   Diag(j)   dj = a_jj - acc ;  reject or store sqrt(dj), per Variant:   *)
+(*                                                                         *)
+(*   Variant = "current"   reject iff dj < 0 or dj is nan.  This is        *)
+(*       cholesky_mut as it stands in /repo (`d < T::zero() || d.is_nan()`,*)
+(*       commit a05df8f).  An exactly zero pivot is still accepted; what   *)
+(*       follows it is +-inf (=> -inf pivot => rejected) or nan            *)
+(*       (=> rejected).  The REPLAY lines compared with the real code come *)
+(*       from this variant.                                                *)
+(*   Variant = "strict"    reject unless dj > 0 (`!(d > T::zero())`): the  *)
+(*       alternative repair.  Model-checked so that the properties below   *)
+(*       are known not to prefer one repair over the other.                *)
+(*   Variant = "regress-a05df8f"   reject iff dj < 0 only, the IEEE        *)
+(*       comparison being FALSE for nan.  This is the DEFECT REPAIRED BY   *)
+(*       COMMIT a05df8f (0/0 = nan after a zero pivot passed as "not       *)
+(*       negative" and nan factors were returned).  Kept only as a named   *)
+(*       regression shape: DefectExtent pins down exactly which inputs it  *)
+(*       mishandles, which is the input class the trace specification      *)
+(*       names ("...mustErr.zeroPivot.nan") should the defect come back.   *)
 (*                                                                         *)
 (* Checked by TLC in every terminal state:                                 *)
 (*   PivotsAreMinorRatios  d_j * M_{j-1} = M_j (leading principal minors), *)
@@ -28,20 +43,24 @@
 (*                  Factorisations.tla;                                    *)
 (*   FactorsExact   outcome ok with positive pivots => A = L L^T exactly;  *)
 (*   SpdAccepted    PosDef(A) (as trace validation decides it) => ok with  *)
-(*                  positive pivots;                                       *)
-(*   ErrorClause    ClearlyIndefinite(A) => err          (NanIsError)      *)
-(*   DefectExtent   for the design AS CODED (NanIsError = FALSE) the error  *)
-(*                  clause fails exactly on inputs of class "zeroPivot"    *)
-(*                  (first non-positive leading minor is 0) and then the   *)
-(*                  returned factors contain nan -- this is the genuine    *)
-(*                  defect listed in known_findings/C01.json, and it is    *)
-(*                  why the trace spec names that class in its clause.     *)
+(*                  positive pivots                      (every variant);  *)
+(*   ErrorClause    ClearlyIndefinite(A) => err   ("current" and "strict");*)
+(*   OkIsFinite     an accepted factorisation has finite factors           *)
+(*                                                ("current" and "strict");*)
+(*   DefectExtent   "regress-a05df8f" violates the error clause exactly on *)
+(*                  inputs of class "zeroPivot" (first non-positive        *)
+(*                  leading minor is 0), returning factors that contain    *)
+(*                  nan.                                                   *)
+(* The statement is silent on the semidefinite boundary, and so are these  *)
+(* properties: there "current" may answer ok (zero last pivot) where       *)
+(* "strict" answers err; neither is demanded, neither is flagged.          *)
 (***************************************************************************)
 EXTENDS Factorisations, TLC, Json
 
 R == INSTANCE Rational
 
-CONSTANTS N, K, NanIsError
+CONSTANTS N, K, Variant
+ASSUME Variant \in {"current", "strict", "regress-a05df8f"}
 VARIABLES A0, r, d, j, k, acc, outcome
 vars == <<A0, r, d, j, k, acc, outcome>>
 
@@ -81,7 +100,10 @@ Off == /\ outcome = "run" /\ k < j
 
 Diag == /\ outcome = "run" /\ k = j
         /\ LET dj == R!Sub(R!OfInt(A0[j][j]), acc)
-           IN  IF R!Lt(dj, R!Zero) \/ (NanIsError /\ R!IsNan(dj))
+               rejected == CASE Variant = "current" -> R!Lt(dj, R!Zero) \/ R!IsNan(dj)
+                             [] Variant = "strict" -> ~R!Gt(dj, R!Zero)
+                             [] OTHER -> R!Lt(dj, R!Zero)          \* regress-a05df8f
+           IN  IF rejected
                THEN outcome' = "err" /\ UNCHANGED <<d, j, k, acc>>
                ELSE /\ d' = [d EXCEPT ![j] = dj]
                     /\ outcome' = IF j = N THEN "ok" ELSE "run"
@@ -119,17 +141,24 @@ FactorsExact ==
 
 SpdAccepted == (Done /\ PosDef(A0)) => (outcome = "ok" /\ PositivePivots)
 
-ErrorClause == (Done /\ NanIsError /\ ClearlyIndefinite(A0)) => outcome = "err"
+ErrorClause == (Done /\ Variant # "regress-a05df8f" /\ ClearlyIndefinite(A0)) => outcome = "err"
 
 DefectExtent ==
-    (Done /\ ~NanIsError /\ ClearlyIndefinite(A0)) =>
+    (Done /\ Variant = "regress-a05df8f" /\ ClearlyIndefinite(A0)) =>
         \/ outcome = "err"
         \/ (outcome = "ok" /\ SomeNan /\ ErrClass(A0) = "zeroPivot")
 
-(* spec -> impl: the outcome the design AS CODED produces (status and whether
-   every stored value is a finite number); compared with the real cholesky() *)
+(* spec -> impl: the outcome of the design (status and whether every stored
+   value is a finite number); printed by the "current" configuration and
+   compared with the real cholesky().  The model is exact; the real code
+   rounds sqrt(d), so on an input whose exact elimination meets a ZERO pivot
+   after an irrational square root (sqrt(2)^2 # 2 in floating point) the real
+   pivot is +-tiny instead of 0 and the branch taken may differ.  Such inputs
+   lie on the semidefinite boundary or are rejected either way; they are the
+   expected MODEL-DRIFT of this comparison. *)
 AllFinite == /\ \A p \in 1..N : R!IsQ(d[p])
              /\ \A p, q \in 1..N : q < p => R!IsQ(r[p][q])
+OkIsFinite == (outcome = "ok" /\ Variant # "regress-a05df8f") => AllFinite
 Replay == Done =>
     PrintT(<<"REPLAY", ToJson([kind |-> "chol", A |-> A0, status |-> outcome,
                                fin |-> (outcome = "ok" /\ AllFinite)])>>)
